@@ -18,6 +18,10 @@
      std::terminate (finding 14: the stop callback is registered by connect, not by start).
    Ghost state: which union member is constructed, on which members a destructor ran, deleted,
    freed (checked by every step that touches the shared state: uaf), who won the race from init.
+   Line numbers refer to spawn_future.hpp as written.  The scope is a v2::async_scope (its
+   counter belongs to C08 and is not modelled).  Not this model: the v1 scope, whose attach
+   sender answers a stop request by completing the spawned operation with done inside
+   request_stop, so that complete runs nested in drop on thread Fut (monitored only).
    Executable definitions only. *)
 From Coq Require Import List Bool Arith.
 Import ListNotations.
